@@ -1169,7 +1169,30 @@ def run_default(coro_fn, *a, **kw):
 _MON_TOOL = 4
 
 
-def enable_line_points(code_objects):
+_FOREIGN_ONLY = set()    # code objects whose lines are points only when a thread other than the loop's runs them
+
+
+def loop_bound_code():
+    """Code of the asyncio primitives that are bound to the event loop's thread. They are not thread-safe: if a worker
+    thread of the code under test calls them directly, every line of theirs is a scheduling point for that thread, so
+    a check-then-act race inside them (e.g. Queue.get_nowait: empty() ... _get()) can be scheduled."""
+    import asyncio.queues as q
+    out = []
+    for cls in (q.Queue, q.PriorityQueue, q.LifoQueue):
+        for name in ('get_nowait', 'put_nowait', 'empty', 'full', 'qsize', '_get', '_put', 'task_done', '_wakeup_next'):
+            f = cls.__dict__.get(name)
+            if f is not None and hasattr(f, '__code__'):
+                out.append(f.__code__)
+    import asyncio.locks as lk
+    for cls in (lk.Semaphore, lk.Lock, lk.Event):
+        for name in ('locked', 'release', 'set', 'clear', 'is_set', '_wake_up_next', '_wake_up_first'):
+            f = cls.__dict__.get(name)
+            if f is not None and hasattr(f, '__code__'):
+                out.append(f.__code__)
+    return out
+
+
+def enable_line_points(code_objects, foreign_only=()):
     """Make every source line of the given code objects a scheduling point
     (sys.monitoring LINE events). Used by the thorough tier to cover
     unsynchronised accesses between synchronisation operations."""
@@ -1184,13 +1207,18 @@ def enable_line_points(code_objects):
         if s is None or s.aborting or s.teardown:
             return
         try:
-            s.tls.rec
+            rec = s.tls.rec
         except AttributeError:
+            return
+        if code in _FOREIGN_ONLY and rec.tid == 0:
             return
         s.point(f'L{line}')
 
     mon.register_callback(_MON_TOOL, mon.events.LINE, on_line)
     for co in code_objects:
+        mon.set_local_events(_MON_TOOL, co, mon.events.LINE)
+    for co in foreign_only:
+        _FOREIGN_ONLY.add(co)
         mon.set_local_events(_MON_TOOL, co, mon.events.LINE)
 
 
